@@ -281,6 +281,13 @@ let run_case (x : sx) : Stdlib.String.t =
                     | [A "3"] -> SWild false
                     | A "5" :: L a :: L b :: rest ->
                         SSlice (cp a, cp b, (match rest with [L c] -> Some (cp c) | _ -> None))
+                    | A "6" :: subs ->
+                        let sub = function
+                          | L (A "i" :: k) -> UIdx (cp k)
+                          | L [A "w"] -> UWild
+                          | L (A "s" :: L a :: L b :: rest) -> USlice (cp a, cp b, (match rest with [L c] -> Some (cp c) | _ -> None))
+                          | _ -> failwith "bad subscript" in
+                        (match List.map sub subs with u :: us -> SUnion (u, us) | [] -> failwith "empty union")
                     | A q :: k -> SBr (n_of_int (int_of_string q), cp k)
                     | _ -> failwith "bad step" in
                   let ks = List.map (function
